@@ -16,6 +16,15 @@
 (* check/props/c16.py (binding A: every terminal state = block shape, tamper  *)
 (* actions, arrival order, is rebuilt from a real block of C10's pipeline by  *)
 (* the real LocalFSWriter and fed to the real importer).                      *)
+(*                                                                            *)
+(* The two voteproofs of a block are two items of their own right: each has   *)
+(* its point (height, round), and a sync source can replace either of them,   *)
+(* alone, by a genuine voteproof of another height or round (ivp_.., avp_..). *)
+(* R4 speaks about each of them. What a relation says is evaluated on what    *)
+(* the importer stored (Facts(b) = what the harness reads back from the       *)
+(* stored files: points of both voteproofs relative to the manifest, ...),    *)
+(* never through the repository's validator alone: the importer and the       *)
+(* validator share base.IsValidVoteproofsWithManifest.                        *)
 EXTENDS Integers, Sequences, FiniteSets, TLC
 
 CONSTANTS Shapes,       \* block shapes that are imported
@@ -27,6 +36,7 @@ CONSTANTS Shapes,       \* block shapes that are imported
 OrderFwd == <<"proposal", "operations", "operations_tree", "states", "states_tree", "voteproofs">>
 OrderRev == <<"voteproofs", "states_tree", "states", "operations_tree", "operations", "proposal">>
 OrderMix == <<"states", "voteproofs", "operations_tree", "proposal", "states_tree", "operations">>
+OrdersOne == {OrderMix}
 OrdersQuick == {OrderFwd, OrderRev}
 OrdersThorough == {OrderFwd, OrderRev, OrderMix}
 
@@ -36,6 +46,10 @@ H == 5
 (* ---- honest blocks ------------------------------------------------------ *)
 Leaf(id, in) == [id |-> id, in |-> in]
 St(key, val, h) == [key |-> key, val |-> val, h |-> h]
+(* the hash of a state covers its key and value (previous, operations), NOT its height:     *)
+(* base.BaseState.generateHash                                                              *)
+Hs(s) == [key |-> s.key, val |-> s.val]
+HsSeq(ss) == [k \in DOMAIN ss |-> Hs(ss[k])]
 
 Honest(shape) ==
   LET tree == CASE shape = "full" -> <<Leaf("a", TRUE), Leaf("b", TRUE), Leaf("c", TRUE)>>
@@ -50,11 +64,11 @@ Honest(shape) ==
       opsFile |-> [k \in DOMAIN file |-> file[k].id],
       opsTree |-> tree,
       sts |-> sts,
-      stsTree |-> sts,                          \* leaves = hashes of the states = the states
+      stsTree |-> HsSeq(sts),                   \* leaves = hashes of the states
       prop |-> [fact |-> "P", h |-> H],
       ivp |-> [h |-> H, r |-> 0],
       avp |-> [h |-> H, r |-> 0, nb |-> "M", maj |-> TRUE],
-      man |-> [h |-> H, opsRoot |-> tree, stsRoot |-> sts, prop |-> "P", hash |-> "M"],
+      man |-> [h |-> H, opsRoot |-> tree, stsRoot |-> HsSeq(sts), prop |-> "P", hash |-> "M"],
       stale |-> {},                             \* items whose checksum in the map is not the item's
       signed |-> TRUE]
 
@@ -76,10 +90,12 @@ R1(b) == /\ NoDupSeq(b.opsFile)
 (* R2 the states are the leaves of the states tree, are of the manifest's height, and the  *)
 (*    tree is the manifest's                                                              *)
 R2(b) == /\ NoDupSeq(b.sts)
-         /\ Range(b.sts) = Range(b.stsTree)
+         /\ NoDupSeq(HsSeq(b.sts))
+         /\ Range(HsSeq(b.sts)) = Range(b.stsTree)
          /\ \A s \in Range(b.sts) : s.h = b.man.h
          /\ b.stsTree = b.man.stsRoot
 R3(b) == b.prop.fact = b.man.prop /\ b.prop.h = b.man.h
+(* R4 both voteproofs are of the manifest's height and of one and the same round            *)
 R4(b) == b.ivp.h = b.man.h /\ b.avp.h = b.man.h /\ b.ivp.r = b.avp.r
 R5(b) == b.avp.maj /\ b.avp.nb = b.man.hash
 R6(b) == b.stale \cap Listed(b) = {}
@@ -98,6 +114,11 @@ Applicable(b, t) ==
     [] t \in {"sts_missing", "sts_height", "sts_foreign_tree"} -> b.sts # <<>>
     [] t = "sts_extra" -> b.stsTree # <<>> /\ ExtraPol \notin Range(b.sts)
     [] t = "sts_alter" -> \E k \in DOMAIN b.sts : b.sts[k].key = "suffrage" /\ b.sts[k] # ForgedSuf
+    \* one voteproof replaced: the INIT voteproof first (canonical order), each coordinate once
+    [] t \in {"ivp_prev", "ivp_next"} -> b.ivp.h = H /\ b.avp = Honest(b.shape).avp
+    [] t = "ivp_round" -> b.ivp.r = 0 /\ b.avp = Honest(b.shape).avp
+    [] t \in {"avp_prev", "avp_next"} -> b.avp.h = H
+    [] t = "vps_other_block" -> b.ivp.h = H /\ b.avp.h = H
     [] OTHER -> TRUE
 
 Tamper(b, t) ==
@@ -111,13 +132,19 @@ Tamper(b, t) ==
     [] t = "sts_extra" -> [b EXCEPT !.sts = Append(@, ExtraPol)]
     [] t = "sts_alter" -> [b EXCEPT !.sts = [k \in DOMAIN @ |-> IF @[k].key = "suffrage" THEN ForgedSuf ELSE @[k]]]
     [] t = "sts_foreign_tree" ->                 \* a tree of the states that are sent
-         [b EXCEPT !.stsTree = IF b.sts # b.man.stsRoot THEN b.sts ELSE Append(b.sts, ExtraPol)]
-    [] t = "sts_height" ->
-         LET s2 == [b.sts EXCEPT ![Len(b.sts)] = [@ EXCEPT !.h = H - 1]] IN [b EXCEPT !.sts = s2, !.stsTree = s2]
+         [b EXCEPT !.stsTree = IF HsSeq(b.sts) # b.man.stsRoot THEN HsSeq(b.sts) ELSE HsSeq(Append(b.sts, ExtraPol))]
+    [] t = "sts_height" ->                       \* (the tree of its hashes is the same tree)
+         [b EXCEPT !.sts = [@ EXCEPT ![Len(@)] = [@ EXCEPT !.h = H - 1]]]
     [] t = "proposal_other" -> [b EXCEPT !.prop.fact = "Q"]
-    [] t = "proposal_height" -> [b EXCEPT !.prop.h = H + 1]
+    [] t = "proposal_height" -> [b EXCEPT !.prop.h = H + 1, !.prop.fact = "P+1"]   \* (the point is part of the fact)
     [] t = "vps_other_block" -> [b EXCEPT !.ivp.h = H - 1, !.avp.h = H - 1, !.avp.nb = "M-1"]
-    [] t = "vps_other_round" -> [b EXCEPT !.avp.r = 1]
+    [] t = "vps_other_round" -> [b EXCEPT !.avp.r = 1]          \* the ACCEPT voteproof alone, another round
+    \* one of the two voteproofs alone is a genuine voteproof of the block below / above, or of another round
+    [] t = "ivp_prev" -> [b EXCEPT !.ivp.h = H - 1]
+    [] t = "ivp_next" -> [b EXCEPT !.ivp.h = H + 1]
+    [] t = "ivp_round" -> [b EXCEPT !.ivp.r = 1]
+    [] t = "avp_prev" -> [b EXCEPT !.avp.h = H - 1, !.avp.nb = "M-1"]
+    [] t = "avp_next" -> [b EXCEPT !.avp.h = H + 1, !.avp.nb = "M+1"]
     [] t = "avp_other_newblock" -> [b EXCEPT !.avp.nb = "N"]
     [] t = "avp_draw" -> [b EXCEPT !.avp.maj = FALSE, !.avp.nb = ""]
     [] t = "checksum" -> [b EXCEPT !.stale = @ \cup {"proposal"}]   \* item replaced, map not updated
@@ -127,7 +154,7 @@ Tamper(b, t) ==
 Aim(t) == CASE t \in {"ops_drop", "ops_dup", "ops_alter", "ops_extra", "ops_foreign_tree", "ops_item_dropped"} -> 1
             [] t \in {"sts_missing", "sts_extra", "sts_alter", "sts_foreign_tree", "sts_height"} -> 2
             [] t \in {"proposal_other", "proposal_height"} -> 3
-            [] t \in {"vps_other_block", "vps_other_round"} -> 4
+            [] t \in {"vps_other_block", "vps_other_round", "ivp_prev", "ivp_next", "ivp_round", "avp_prev", "avp_next"} -> 4
             [] t \in {"avp_other_newblock", "avp_draw"} -> 5
             [] t = "checksum" -> 6
             [] t = "map_unsigned" -> 7
@@ -142,7 +169,7 @@ ItemOK(b, it) ==
   /\ it = "voteproofs" => (b.ivp.h = b.man.h /\ b.avp.h = b.man.h /\ b.ivp.r = b.avp.r)
 (* Save: all listed items arrived; the suffrage proof must be makeable from what arrived *)
 SaveOK(b) ==
-  \A s \in Range(b.sts) : s.key = "suffrage" => s \in Range(b.stsTree)
+  \A s \in Range(b.sts) : s.key = "suffrage" => Hs(s) \in Range(b.stsTree)
 ImporterStores(b) == b.signed /\ (\A it \in Listed(b) : ItemOK(b, it)) /\ SaveOK(b)
 
 (* ---- what IsValidBlockFromLocalFS checks -------------------------------- *)
@@ -158,7 +185,8 @@ ValidatorAccepts(b) ==
   /\ Len(b.stsTree) = Len(b.sts)
   /\ (b.sts # <<>> =>
         /\ NoDupSeq(b.sts)
-        /\ \A l \in Range(b.stsTree) : l \in Range(b.sts) /\ l.h = b.man.h
+        /\ NoDupSeq(HsSeq(b.sts))
+        /\ \A l \in Range(b.stsTree) : \E x \in Range(b.sts) : Hs(x) = l /\ x.h = b.man.h
         /\ b.stsTree = b.man.stsRoot)
   /\ b.ivp.h = b.man.h /\ b.avp.h = b.man.h /\ b.ivp.r = b.avp.r
 
@@ -202,8 +230,23 @@ WriteItem(it) ==
   /\ failed' = (failed \/ ~ItemOK(b, it))
   /\ UNCHANGED <<b, tampers, phase, stored, step>>
 
+(* what can be read back from the files of a block, relative to its manifest: the harness     *)
+(* reads the same record from the tampered source (must be equal: the binding is sound) and    *)
+(* from what the importer stored (the relations are then evaluated on it by RelFacts)          *)
+Facts(x) == [ivp |-> <<x.ivp.h - x.man.h, x.ivp.r>>, avp |-> <<x.avp.h - x.man.h, x.avp.r>>,
+             maj |-> x.avp.maj, nbm |-> x.avp.nb = x.man.hash,
+             propm |-> x.prop.fact = x.man.prop, proph |-> x.prop.h - x.man.h,
+             opsroot |-> x.opsTree = x.man.opsRoot, stsroot |-> x.stsTree = x.man.stsRoot,
+             stale |-> x.stale \cap Listed(x), signed |-> x.signed]
+(* R3..R7 (and the root clauses of R1, R2) as functions of such a record: transcribed in       *)
+(* check/props/c16.py rel_facts(); FactsAgree says the two ways of evaluating agree            *)
+RelFacts(f) == [r1root |-> f.opsroot, r2root |-> f.stsroot,
+                r3 |-> f.propm /\ f.proph = 0,
+                r4 |-> f.ivp[1] = 0 /\ f.avp[1] = 0 /\ f.ivp[2] = f.avp[2],
+                r5 |-> f.maj /\ f.nbm, r6 |-> f.stale = {}, r7 |-> f.signed]
+
 CaseStep == [kind |-> "case", shape |-> b.shape, tampers |-> tampers, order |-> arrived,
-             broken |-> Broken(b), storable |-> Storable(b),
+             broken |-> Broken(b), storable |-> Storable(b), facts |-> Facts(b),
              importer |-> stored', validator |-> ValidatorAccepts(b)]
 
 (* BlockImporter.Save (ImportBlocks cancels instead when an item failed or the map is invalid) *)
@@ -229,6 +272,10 @@ StoredOnlyIfValidatorAccepts == (phase = "done" /\ stored) => ValidatorAccepts(b
 HonestStorable == tampers = <<>> => Storable(b)
 TampersBreak == Len(tampers) = 1 => Aim(tampers[1]) \in Broken(b)   \* (a second action may undo the first)
 ChecksumsKept == (\A k \in DOMAIN tampers : tampers[k] \notin {"checksum", "map_unsigned"}) => (R6(b) /\ R7(b))
+(* the relations evaluated on the read-back record are the relations *)
+FactsAgree == LET r == RelFacts(Facts(b)) IN
+  /\ r.r3 = R3(b) /\ r.r4 = R4(b) /\ r.r5 = R5(b) /\ r.r6 = R6(b) /\ r.r7 = R7(b)
+  /\ (R1(b) => r.r1root) /\ (R2(b) => r.r2root)
 (* the arrival order does not matter to the importer *)
 OrderIndependent == phase = "done" => (stored = ImporterStores(b))
 (* what the importer does check *)
